@@ -80,10 +80,33 @@ Proof. exact swap_virtual_only_worsens. Qed.
 
 Theorem c03_position_virtual_only_worsens : forall w unit p oll ols osl oss vi is_long sd incl r,
   position_price_impact w unit p oll ols osl oss vi is_long sd incl = Ok r ->
-  exists real, position_price_impact w unit p oll ols osl oss vi is_long sd false = Ok real /\
+  exists ol os d real,
+    uadd w oll ols = Some ol /\ uadd w osl oss = Some os /\
+    pd_new w ol os 1 1 (if is_long then sd else 0) (if is_long then 0 else sd) = Ok d /\
+    price_impact w unit p d = Ok real /\
+    position_price_impact w unit p oll ols osl oss vi is_long sd false = Ok real /\
     fst r <= fst real /\ (0 <= fst real -> r = real) /\
     (r = real \/ (incl = true /\ vi <> None /\ fst r < fst real)).
 Proof. exact position_virtual_only_worsens. Qed.
+
+(* the sign rules hold at the API level, with or without virtual inventory: a swap / position change
+   that does not improve the (real) balance never gets a positive impact, a same-side improvement
+   never a negative one *)
+Theorem c03_swap_sign_rules : forall w, 1 <= w -> forall unit, 0 < unit < 2 ^ w ->
+  forall p la sa pl ps dl ds vi incl v bc, wf_pi p ->
+  swap_impact_value w unit p la sa pl ps dl ds vi incl = Ok (v, bc) ->
+  exists d, pd_new w la sa pl ps dl ds = Ok d /\
+    (initial_diff d <= next_diff d -> v <= 0) /\
+    (next_diff d < initial_diff d -> same_side d = true -> 0 <= v /\ bc = Improved).
+Proof. exact swap_sign_rules. Qed.
+
+Theorem c03_position_sign_rules : forall w, 1 <= w -> forall unit, 0 < unit < 2 ^ w ->
+  forall p oll ols osl oss vi is_long sd incl v bc, wf_pi p ->
+  position_price_impact w unit p oll ols osl oss vi is_long sd incl = Ok (v, bc) ->
+  exists d, pd_new w (oll + ols) (osl + oss) 1 1 (if is_long then sd else 0) (if is_long then 0 else sd) = Ok d /\
+    (initial_diff d <= next_diff d -> v <= 0) /\
+    (next_diff d < initial_diff d -> same_side d = true -> 0 <= v /\ bc = Improved).
+Proof. exact position_sign_rules. Qed.
 
 (* non-vacuity *)
 Example c03_ex1 :
